@@ -90,31 +90,37 @@ func evMemFlushWait() InstrPred {
 	}
 }
 
+// ruleJournalWrite: C04.1 / C10.6 — a write group is ONE journal record, written, flushed and
+// (if requested) synced before success; the record is the unit recovery keeps or drops as a whole.
+func ruleJournalWrite(p *Prog, r *Report, rule string) {
+	r.Begin(rule, "E-ORD", "journal: in writeJournal the record is written, flushed to the file and (sync requested) synced before any success return; one record per write group", 6)
+	defer r.End()
+	if fn := resolveFn(p, r, "leveldb", "(*DB).writeJournal"); fn != nil {
+		syncTrue := assumeParam(fn, "sync", true)
+		ordOnSuccess(p, r, fn, "next", nil, evCall(fJNext), "journal.Next")
+		ordOnSuccess(p, r, fn, "record-written", nil, evCall("leveldb.writeBatchesWithHeader"), "writeBatchesWithHeader")
+		ordOnSuccess(p, r, fn, "flushed", nil, evCall(fJFlush), "journal.Flush")
+		ordOnSuccess(p, r, fn, "synced", syncTrue, evSync, "journalWriter.Sync (sync=true)")
+		ordPrecede(p, r, fn, "write-before-flush", nil, evCall("leveldb.writeBatchesWithHeader"), "writeBatchesWithHeader", evCall(fJFlush), "journal.Flush")
+		ordPrecede(p, r, fn, "flush-before-sync", nil, evCall(fJFlush), "journal.Flush", evSync, "journalWriter.Sync")
+		n := countInstr(fn, evCall(fJNext))
+		r.Check(n == 1, fnName(fn), "one-record", "exactly one journal.Next per write group (one record = one atomic batch group)", "found "+itoa(n)+" journal.Next calls", p.Pos(fn.Pos()))
+		ordNeverAfter(p, r, fn, "one-record-no-loop", nil, evCall(fJNext), "journal.Next", evCall(fJNext), "a second journal.Next", nil, "")
+	}
+	if fn := resolveFn(p, r, "leveldb", "writeBatchesWithHeader"); fn != nil {
+		// the header (sequence + count) is written before any batch body
+		hdr := andPred(isWriteInvoke, predArg(0, mCall("leveldb.encodeBatchHeader")))
+		body := andPred(isWriteInvoke, predArg(0, mFieldLoad("leveldb.Batch", "data")))
+		ordPrecede(p, r, fn, "header-first", nil, hdr, "Write(encodeBatchHeader(..))", body, "Write(batch.data)")
+		ordOnSuccess(p, r, fn, "header-written", nil, hdr, "Write(encodeBatchHeader(..))")
+	}
+}
+
 func runC04(p *Prog, r *Report) {
 	syncOn := assumeSyncOn()
 
 	if want("C04.1") {
-		r.Begin("C04.1", "E-ORD", "journal: in writeJournal the record is written, flushed to the file and (sync requested) synced before any success return; one record per write group", 6)
-		if fn := resolveFn(p, r, "leveldb", "(*DB).writeJournal"); fn != nil {
-			syncTrue := assumeParam(fn, "sync", true)
-			ordOnSuccess(p, r, fn, "next", nil, evCall(fJNext), "journal.Next")
-			ordOnSuccess(p, r, fn, "record-written", nil, evCall("leveldb.writeBatchesWithHeader"), "writeBatchesWithHeader")
-			ordOnSuccess(p, r, fn, "flushed", nil, evCall(fJFlush), "journal.Flush")
-			ordOnSuccess(p, r, fn, "synced", syncTrue, evSync, "journalWriter.Sync (sync=true)")
-			ordPrecede(p, r, fn, "write-before-flush", nil, evCall("leveldb.writeBatchesWithHeader"), "writeBatchesWithHeader", evCall(fJFlush), "journal.Flush")
-			ordPrecede(p, r, fn, "flush-before-sync", nil, evCall(fJFlush), "journal.Flush", evSync, "journalWriter.Sync")
-			n := countInstr(fn, evCall(fJNext))
-			r.Check(n == 1, fnName(fn), "one-record", "exactly one journal.Next per write group (one record = one atomic batch group)", "found "+itoa(n)+" journal.Next calls", p.Pos(fn.Pos()))
-			ordNeverAfter(p, r, fn, "one-record-no-loop", nil, evCall(fJNext), "journal.Next", evCall(fJNext), "a second journal.Next", nil, "")
-		}
-		if fn := resolveFn(p, r, "leveldb", "writeBatchesWithHeader"); fn != nil {
-			// the header (sequence + count) is written before any batch body
-			hdr := andPred(isWriteInvoke, predArg(0, mCall("leveldb.encodeBatchHeader")))
-			body := andPred(isWriteInvoke, predArg(0, mFieldLoad("leveldb.Batch", "data")))
-			ordPrecede(p, r, fn, "header-first", nil, hdr, "Write(encodeBatchHeader(..))", body, "Write(batch.data)")
-			ordOnSuccess(p, r, fn, "header-written", nil, hdr, "Write(encodeBatchHeader(..))")
-		}
-		r.End()
+		ruleJournalWrite(p, r, "C04.1")
 	}
 
 	if want("C04.2") {
